@@ -238,9 +238,9 @@ Proof.
 Qed.
 
 (* request with the expected bit: one entry is taken from the class queue and remembered for a repetition *)
-Theorem su_request_new : forall c s cls fcb d rest, fcb = su_efcb s -> (if cls then su_q1 s else su_q2 s) = d :: rest ->
+Theorem su_request_new : forall c s (cls : bool) fcb d rest, fcb = su_efcb s -> (if cls then su_q1 s else su_q2 s) = d :: rest ->
   let s' := fst (su_request c s cls fcb true) in
-  su_efcb s' = negb (su_efcb s) /\ su_udbuf s' = d /\ su_udsz s' = lenz d mod 256 /\
+  su_efcb s' = negb (su_efcb s) /\ su_udbuf s' = d /\ su_udsz s' = lenz d mod 256 /\ su_addr s' = su_addr s /\
   (if cls then su_q1 s' = rest /\ su_q2 s' = su_q2 s else su_q2 s' = rest /\ su_q1 s' = su_q1 s) /\
   snd (su_request c s cls fcb true) = tx_opt (enc_var (alen c) 8 (su_addr s) false false (q_nonempty (su_q1 s')) false d).
 Proof.
@@ -249,9 +249,9 @@ Proof.
     repeat split; reflexivity.
 Qed.
 
-(* hence a poll, its lost response and the repeated poll give the SAME response frame, and the entry is
-   taken from the queue exactly once *)
-Theorem su_poll_repeat_identical : forall c s cls cls' fcb d rest, fcb = su_efcb s ->
+(* hence a poll, its lost response and the repeated poll (even one for the other class) give the SAME
+   response frame, and the entry is taken from the queue exactly once *)
+Theorem su_poll_repeat_identical : forall c s (cls cls' : bool) fcb d rest, fcb = su_efcb s ->
   (if cls then su_q1 s else su_q2 s) = d :: rest -> 0 < lenz d < 256 ->
   let '(s1, o1) := su_request c s cls fcb true in
   let '(s2, o2) := su_request c s1 cls' fcb true in
@@ -259,12 +259,305 @@ Theorem su_poll_repeat_identical : forall c s cls cls' fcb d rest, fcb = su_efcb
 Proof.
   intros c s cls cls' fcb d rest Hf Hq Hd.
   pose proof (su_request_new c s cls fcb d rest Hf Hq) as N. cbv zeta in N.
-  destruct (su_request c s cls fcb true) as [s1 o1]. cbn [fst snd] in N. destruct N as (E1 & E2 & E3 & E4 & E5).
+  destruct (su_request c s cls fcb true) as [s1 o1]. cbn [fst snd] in N. destruct N as (E1 & E2 & E3 & Ea & E4 & E5).
   assert (Hf1 : fcb = negb (su_efcb s1)) by (rewrite E1, Hf; destruct (su_efcb s); reflexivity).
   assert (Hz : 0 < su_udsz s1) by (rewrite E3, Z.mod_small; lia).
-  rewrite (su_request_dup c s1 cls' fcb Hf1 Hz). rewrite E2, E5. split; [|reflexivity].
-  f_equal. f_equal. unfold su_request in *. reflexivity || idtac.
-  (* the address field is not changed by a request *)
-  clear - E1. unfold su_request in *. reflexivity || idtac.
-  Fail idtac.
-Abort.
+  rewrite (su_request_dup c s1 cls' fcb Hf1 Hz). rewrite E2, E5, Ea. split; reflexivity.
+Qed.
+
+(* ---- balanced secondary *)
+Theorem sb_fc3_new : forall v c addr dir s fcb msg uds udl, fcb = sb_efcb s -> 0 < udl ->
+  sb_handle v c addr dir true s 3 fcb true msg uds udl =
+  ({| sb_efcb := negb (sb_efcb s) |}, [OInd false (user_data msg uds udl); OTx (bal_ack c addr dir)]).
+Proof.
+  intros v c addr dir s fcb msg uds udl -> Hl. unfold sb_handle. rewrite eqb_reflx. cbn [andb negb]. cbv iota.
+  change (3 =? 0) with false. change (3 =? 2) with false. change (3 =? 3) with true. cbv iota.
+  assert (E : udl >? 0 = true) by (apply Z.gtb_lt; lia). rewrite E. reflexivity.
+Qed.
+
+(* with the proposed repair a retransmitted frame is acknowledged again and not delivered *)
+Theorem sb_fc3_dup : forall v c addr dir indret s fcb msg uds udl, fb v = true -> fcb = negb (sb_efcb s) ->
+  sb_handle v c addr dir indret s 3 fcb true msg uds udl = (s, [OTx (bal_ack c addr dir)]).
+Proof.
+  intros v c addr dir indret s fcb msg uds udl Hv ->. unfold sb_handle.
+  assert (E : eqb (negb (sb_efcb s)) (sb_efcb s) = false) by (destruct (sb_efcb s); reflexivity). rewrite E, Hv. reflexivity.
+Qed.
+
+(* the original code answers a retransmitted frame with silence: the primary can only run into its repeat timeout *)
+Theorem sb_fc3_dup_refuted : forall v c addr dir indret s fcb msg uds udl, fb v = false -> fcb = negb (sb_efcb s) ->
+  sb_handle v c addr dir indret s 3 fcb true msg uds udl = (s, []).
+Proof.
+  intros v c addr dir indret s fcb msg uds udl Hv ->. unfold sb_handle.
+  assert (E : eqb (negb (sb_efcb s)) (sb_efcb s) = false) by (destruct (sb_efcb s); reflexivity). rewrite E, Hv. reflexivity.
+Qed.
+
+Theorem sb_reset_expect : forall v c addr dir indret s msg uds udl,
+  sb_efcb (fst (sb_handle v c addr dir indret s 0 false false msg uds udl)) = true.
+Proof. intros. reflexivity. Qed.
+
+(* ---- the retransmission discipline seen by ANY secondary that follows the two rules above:
+   a primary sends each new frame with the alternated bit and repeats a frame (any number of times) with
+   the same bit; the secondary hands every frame to the application exactly once, in order *)
+Fixpoint sec_recv (e : bool) (frames : list (bool * list Z)) : bool * list (list Z) :=
+  match frames with
+  | [] => (e, [])
+  | (b, m) :: r => if eqb b e then let '(e', d) := sec_recv (negb e) r in (e', m :: d) else sec_recv e r
+  end.
+Fixpoint pri_frames (b : bool) (msgs : list (list Z * nat)) : list (bool * list Z) :=
+  match msgs with
+  | [] => []
+  | (m, reps) :: r => repeat (b, m) (S reps) ++ pri_frames (negb b) r
+  end.
+
+Lemma sec_recv_dups : forall n e m r, sec_recv e (repeat (negb e, m) n ++ r) = sec_recv e r.
+Proof.
+  induction n as [|n IH]; intros e m r; [reflexivity|]. cbn [repeat app sec_recv].
+  assert (E : eqb (negb e) e = false) by (destruct e; reflexivity). rewrite E. apply IH.
+Qed.
+
+Theorem sec_at_most_once : forall msgs e, snd (sec_recv e (pri_frames e msgs)) = map fst msgs.
+Proof.
+  induction msgs as [|[m reps] r IH]; intros e; [reflexivity|].
+  cbn [pri_frames repeat app sec_recv]. rewrite eqb_reflx.
+  replace (repeat (e, m) reps) with (repeat (negb (negb e), m) reps) by (rewrite negb_involutive; reflexivity).
+  rewrite sec_recv_dups. specialize (IH (negb e)).
+  destruct (sec_recv (negb e) (pri_frames (negb e) r)) as [e' d]. cbn [snd map fst] in *. rewrite IH. reflexivity.
+Qed.
+
+(* ================================================================== C15: primaries *)
+Ltac to_prop2 := repeat match goal with
+  | H : (_ =? _) = true |- _ => apply Z.eqb_eq in H
+  | H : (_ =? _) = false |- _ => apply Z.eqb_neq in H
+  | H : (_ >? _) = true |- _ => apply Z.gtb_lt in H
+  | H : (_ >? _) = false |- _ => rewrite Z.gtb_ltb in H; apply Z.ltb_ge in H
+  end.
+(* decide the outermost `if` of the goal by case analysis on one comparison; impossible cases by lia *)
+Ltac gstep2 :=
+  match goal with
+  | |- context [if ?b then _ else _] =>
+     match b with
+     | context [?x =? ?y] => let E := fresh "G" in destruct (x =? y) eqn:E
+     | context [?x >? ?y] => let E := fresh "G" in destruct (x >? y) eqn:E
+     end; cbn [negb andb orb]; cbv beta iota
+  end.
+Ltac settle := repeat (cbn [Z.eqb Pos.eqb orb andb negb]; cbv beta iota; try (gstep2; try (exfalso; to_prop2; unfold clamp in *; lia))).
+
+Lemma clamp_le : forall t now, t <= now -> clamp t now = t.
+Proof. intros t now H. unfold clamp. destruct (t >? now) eqn:E; [apply Z.gtb_lt in E; lia | reflexivity]. Qed.
+
+Definition fcv_frame (c : llcfg) (fcode address : Z) (dir fcb : bool) (data : list Z) : list out :=
+  tx_opt (enc_var (alen c) fcode address true dir fcb true data).
+
+(* a new user-data frame carries nextFcb and toggles it; the frame is remembered *)
+Theorem pb_send_new : forall v c now dir p d rest,
+  pb_ps p = PLL_AVAILABLE -> pb_test p = false -> now - clamp (pb_lastrx p) now <= pb_idle p ->
+  let '(p', q', o) := pb_run v c now dir p (d :: rest) in
+  o = fcv_frame c 3 (pb_other p) dir (pb_nfcb p) d /\ q' = rest /\
+  pb_ps p' = PLL_SEND_CONFIRM /\ pb_nfcb p' = negb (pb_nfcb p) /\ pb_last p' = d /\ pb_test p' = false /\
+  pb_lastsend p' = now /\ pb_origsend p' = now /\ pb_other p' = pb_other p.
+Proof.
+  intros v c now dir p d rest Hs Ht Hi. unfold pb_run. rewrite Hs, Ht. unfold PLL_AVAILABLE, PLL_IDLE, PLL_REQ_STATUS, PLL_RESET, PLL_SEND_CONFIRM.
+  settle. repeat split; reflexivity.
+Qed.
+
+(* acknowledgement timeout inside the repeat window: the SAME frame (same bit, same octets) is sent again *)
+Theorem pb_repeat : forall v c now dir p,
+  pb_ps p = PLL_SEND_CONFIRM -> pb_test p = false -> pb_lastsend p <= now ->
+  pb_lastsend p + t_ack c < now -> now <= pb_origsend p + t_rep c ->
+  let '(p', q', o) := pb_run v c now dir p [] in
+  o = fcv_frame c 3 (pb_other p) dir (negb (pb_nfcb p)) (pb_last p) /\
+  pb_ps p' = PLL_SEND_CONFIRM /\ pb_nfcb p' = pb_nfcb p /\ pb_last p' = pb_last p /\ pb_test p' = false /\
+  pb_lastsend p' = now /\ pb_origsend p' = pb_origsend p /\ pb_other p' = pb_other p.
+Proof.
+  intros v c now dir p Hs Ht H1 H2 H3. unfold pb_run. rewrite Hs, Ht, (clamp_le _ _ H1). unfold PLL_AVAILABLE, PLL_IDLE, PLL_REQ_STATUS, PLL_RESET, PLL_SEND_CONFIRM.
+  settle. repeat split; reflexivity.
+Qed.
+
+Theorem pb_retransmit_identical : forall v c t0 t1 dir p d rest,
+  pb_ps p = PLL_AVAILABLE -> pb_test p = false -> t0 - clamp (pb_lastrx p) t0 <= pb_idle p ->
+  0 <= t_ack c -> t0 + t_ack c < t1 -> t1 <= t0 + t_rep c ->
+  let '(p1, q1, o1) := pb_run v c t0 dir p (d :: rest) in
+  let '(p2, q2, o2) := pb_run v c t1 dir p1 [] in
+  o2 = o1 /\ pb_nfcb p2 = pb_nfcb p1 /\ pb_nfcb p1 = negb (pb_nfcb p).
+Proof.
+  intros v c t0 t1 dir p d rest Hs Ht Hi H0 H1 H2.
+  pose proof (pb_send_new v c t0 dir p d rest Hs Ht Hi) as A. destruct (pb_run v c t0 dir p (d :: rest)) as [[p1 q1] o1].
+  destruct A as (Ao & _ & As & Af & Al & At & Als & Aos & Aot).
+  pose proof (pb_repeat v c t1 dir p1 As At ltac:(lia) ltac:(lia) ltac:(lia)) as B. destruct (pb_run v c t1 dir p1 []) as [[p2 q2] o2].
+  destruct B as (Bo & _ & Bf & _). rewrite Bo, Ao, Af, Al, Aot, negb_involutive. split; [reflexivity | split; [rewrite Bf; rewrite Af; reflexivity | reflexivity]].
+Qed.
+
+(* after the repeat timeout: no further repetition, the link is reported in error (once: the callback
+   fires on a state CHANGE), and the machine restarts with REQUEST STATUS OF LINK *)
+Theorem pb_repeat_stops : forall v c now dir p,
+  pb_ps p = PLL_SEND_CONFIRM -> pb_lastsend p <= now -> pb_lastsend p + t_ack c < now -> pb_origsend p + t_rep c < now ->
+  let '(p', q', o) := pb_run v c now dir p [] in
+  pb_ps p' = PLL_IDLE /\ pb_ls p' = LS_ERROR /\ o = (if pb_ls p =? LS_ERROR then [] else [OLs (-1) LS_ERROR]).
+Proof.
+  intros v c now dir p Hs H1 H2 H3. unfold pb_run. rewrite Hs, (clamp_le _ _ H1). unfold pb_set_state, PLL_AVAILABLE, PLL_IDLE, PLL_REQ_STATUS, PLL_RESET, PLL_SEND_CONFIRM.
+  cbn [pb_ls pb_upd]. settle; cbn [pb_with_ps pb_upd pb_ps pb_ls]; to_prop2; repeat split; try reflexivity; assumption.
+Qed.
+
+Theorem pb_idle_requests_status : forall v c now dir p q, pb_ps p = PLL_IDLE ->
+  snd (pb_run v c now dir p q) = [OTx (enc_fixed (alen c) 9 (pb_other p) true dir false false)] /\
+  pb_ps (fst (fst (pb_run v c now dir p q))) = PLL_REQ_STATUS.
+Proof. intros v c now dir p q Hs. unfold pb_run. rewrite Hs. split; reflexivity. Qed.
+
+(* re-establishment: whenever RESET REMOTE LINK is sent the next frame count bit is 1 (repaired code) *)
+Theorem pb_reset_fcb : forall v c now dir p, fa v = true -> pb_ps p = PLL_REQ_STATUS ->
+  (let '(p', o) := pb_handle v c now dir p 11 false in
+   pb_nfcb p' = true /\ pb_ps p' = PLL_RESET /\ In (OTx (reset_frame c (pb_other p) dir)) o) /\
+  (pb_wait p = false ->
+   let '(p', q', o) := pb_run v c now dir p [] in
+   pb_nfcb p' = true /\ pb_ps p' = PLL_RESET /\ o = [OTx (reset_frame c (pb_other p) dir)]).
+Proof.
+  intros v c now dir p Hv Hs. split.
+  - unfold pb_handle. cbn [pb_with_lastrx pb_ps]. rewrite Hs, Hv. unfold PLL_AVAILABLE, PLL_IDLE, PLL_REQ_STATUS, PLL_RESET, PLL_SEND_CONFIRM.
+    cbn [Z.eqb Pos.eqb orb andb negb]. cbv beta iota. unfold pb_set_state. cbn [pb_upd pb_ls pb_with_lastrx].
+    destruct (pb_ls p =? LS_BUSY); cbn [pb_nfcb pb_ps pb_upd In]; repeat split; try reflexivity; left; reflexivity.
+  - intros Hw. unfold pb_run. rewrite Hs, Hw, Hv. unfold PLL_AVAILABLE, PLL_IDLE, PLL_REQ_STATUS, PLL_RESET, PLL_SEND_CONFIRM.
+    cbn [Z.eqb Pos.eqb orb andb negb]. cbv beta iota. cbn [pb_nfcb pb_ps pb_upd]. repeat split; reflexivity.
+Qed.
+
+
+Lemma pb_ack_in_reset : forall v c now dir p, pb_ps p = PLL_RESET ->
+  let p' := fst (pb_handle v c now dir p 0 false) in
+  pb_ps p' = PLL_AVAILABLE /\ pb_nfcb p' = pb_nfcb p /\ pb_test p' = pb_test p /\ pb_lastrx p' = now /\
+  pb_other p' = pb_other p /\ pb_idle p' = pb_idle p.
+Proof.
+  intros v c now dir p Hs. unfold pb_handle. cbn [pb_with_lastrx pb_ps]. rewrite Hs. unfold PLL_RESET, PLL_AVAILABLE.
+  cbn [Z.eqb Pos.eqb orb andb negb]. cbv beta iota. unfold pb_set_state.
+  destruct (pb_ls (pb_with_lastrx p now) =? LS_AVAILABLE); cbn [fst pb_with_lastrx pb_with_ps pb_with_wait pb_upd pb_ps pb_nfcb pb_test pb_lastrx pb_other pb_idle]; repeat split; reflexivity.
+Qed.
+
+(* after an acknowledged reset the first frame sent with FCV = 1 carries FCB = 1 (repaired code) *)
+Theorem pb_first_after_reset : forall v c now dir p d rest, fa v = true ->
+  pb_ps p = PLL_REQ_STATUS -> pb_test p = false -> 0 <= pb_idle p ->
+  let p1 := fst (pb_handle v c now dir p 11 false) in          (* status of link received: RESET REMOTE LINK is sent *)
+  let p2 := fst (pb_handle v c now dir p1 0 false) in          (* the reset is acknowledged *)
+  snd (pb_run v c now dir p2 (d :: rest)) = fcv_frame c 3 (pb_other p) dir true d.
+Proof.
+  intros v c now dir p d rest Hv Hs Ht Hi. cbv zeta.
+  pose proof (proj1 (pb_reset_fcb v c now dir p Hv Hs)) as A.
+  assert (A' : pb_test (fst (pb_handle v c now dir p 11 false)) = false /\ pb_other (fst (pb_handle v c now dir p 11 false)) = pb_other p /\
+               pb_idle (fst (pb_handle v c now dir p 11 false)) = pb_idle p).
+  { unfold pb_handle. cbn [pb_with_lastrx pb_ps]. rewrite Hs. unfold PLL_REQ_STATUS. cbn [Z.eqb Pos.eqb orb andb negb]. cbv beta iota.
+    unfold pb_set_state. cbn [pb_ls pb_upd pb_with_lastrx pb_test pb_origsend pb_nfcb pb_last]. destruct (pb_ls p =? LS_BUSY); cbn [fst pb_test pb_other pb_idle pb_upd pb_with_lastrx]; repeat split; assumption || reflexivity. }
+  destruct (pb_handle v c now dir p 11 false) as [p1 o1]. cbn [fst] in *. destruct A as (An & As & _). destruct A' as (At & Ao & Aid).
+  pose proof (pb_ack_in_reset v c now dir p1 As) as B. cbv zeta in B.
+  destruct (pb_handle v c now dir p1 0 false) as [p2 o2]. cbn [fst] in *. destruct B as (Bs & Bn & Bt & Br & Bo & Bi).
+  assert (Hidle : now - clamp (pb_lastrx p2) now <= pb_idle p2) by (rewrite Br, clamp_le by lia; lia).
+  pose proof (pb_send_new v c now dir p2 d rest Bs ltac:(congruence) Hidle) as C.
+  destruct (pb_run v c now dir p2 (d :: rest)) as [[p3 q3] o3]. cbn [snd]. destruct C as (Co & _). rewrite Co, Bn, An, Bo, Ao. reflexivity.
+Qed.
+
+(* the original code keeps whatever parity the history left: the first frame after the reset can carry FCB = 0,
+   which the peer (expecting 1) treats as a repetition *)
+Theorem pb_first_after_reset_refuted : exists v c now dir p d,
+  fa v = false /\ pb_ps p = PLL_REQ_STATUS /\
+  let p1 := fst (pb_handle v c now dir p 11 false) in
+  let p2 := fst (pb_handle v c now dir p1 0 false) in
+  snd (pb_run v c now dir p2 [d]) = fcv_frame c 3 (pb_other p) dir false d.
+Proof.
+  exists {| fa := false; fb := false; fc_ := false; fd := false; fe := false; ff := false |},
+         {| alen := 1; single_ack := false; t_ack := 200; t_rep := 1000; t_ls := 5000 |}, 5000, true,
+         {| pb_ls := LS_ERROR; pb_ps := PLL_REQ_STATUS; pb_wait := true; pb_lastsend := 5000; pb_origsend := 0; pb_test := false;
+            pb_nfcb := false; pb_other := 2; pb_last := [170]; pb_lastrx := 4000; pb_idle := 100000 |}, [187].
+  vm_compute. repeat split; reflexivity.
+Qed.
+
+(* ---- unbalanced primary, one slave connection *)
+Theorem sc_send_new : forall v c now s,
+  sc_ps s = PLL_AVAILABLE -> sc_test s = false -> sc_has s = true ->
+  let '(s', o) := sc_run v c now s in
+  o = fcv_frame c 3 (sc_addr s) false (sc_nfcb s) (sc_msg s) /\ sc_ps s' = PLL_SEND_CONFIRM /\ sc_nfcb s' = negb (sc_nfcb s) /\
+  sc_msg s' = sc_msg s /\ sc_test s' = false /\ sc_lastsend s' = now /\ sc_origsend s' = now /\ sc_addr s' = sc_addr s.
+Proof.
+  intros v c now s Hs Ht Hh. unfold sc_run. rewrite Hs, Ht, Hh. unfold PLL_AVAILABLE, PLL_IDLE, PLL_REQ_STATUS, PLL_RESET, PLL_SEND_CONFIRM, PLL_TIMEOUT.
+  settle. repeat split; reflexivity.
+Qed.
+
+Theorem sc_repeat : forall v c now s,
+  sc_ps s = PLL_SEND_CONFIRM -> sc_test s = false -> sc_lastsend s <= now ->
+  sc_lastsend s + t_ack c < now -> now <= sc_origsend s + t_rep c ->
+  let '(s', o) := sc_run v c now s in
+  o = fcv_frame c 3 (sc_addr s) false (negb (sc_nfcb s)) (sc_msg s) /\ sc_ps s' = PLL_SEND_CONFIRM /\ sc_nfcb s' = sc_nfcb s /\ sc_msg s' = sc_msg s.
+Proof.
+  intros v c now s Hs Ht H1 H2 H3. unfold sc_run. rewrite Hs, Ht, (clamp_le _ _ H1). unfold PLL_AVAILABLE, PLL_IDLE, PLL_REQ_STATUS, PLL_RESET, PLL_SEND_CONFIRM, PLL_TIMEOUT.
+  settle. cbn [sc_ps sc_nfcb sc_msg sc_with_lastsend sc_mk]. repeat split; try reflexivity; exact Hs.
+Qed.
+
+Theorem sc_retransmit_identical : forall v c t0 t1 s,
+  sc_ps s = PLL_AVAILABLE -> sc_test s = false -> sc_has s = true -> 0 <= t_ack c -> t0 + t_ack c < t1 -> t1 <= t0 + t_rep c ->
+  let '(s1, o1) := sc_run v c t0 s in let '(s2, o2) := sc_run v c t1 s1 in o2 = o1.
+Proof.
+  intros v c t0 t1 s Hs Ht Hh H0 H1 H2.
+  pose proof (sc_send_new v c t0 s Hs Ht Hh) as A. destruct (sc_run v c t0 s) as [s1 o1].
+  destruct A as (Ao & As & Af & Am & At & Als & Aos & Aa).
+  pose proof (sc_repeat v c t1 s1 As At ltac:(lia) ltac:(lia) ltac:(lia)) as B. destruct (sc_run v c t1 s1) as [s2 o2].
+  destruct B as (Bo & _). rewrite Bo, Ao, Af, Am, Aa, negb_involutive. reflexivity.
+Qed.
+
+(* a request for class 1 / class 2 data: toggles; its repetition is the same request (repaired code) *)
+Theorem sc_request_new : forall v c now s,
+  sc_ps s = PLL_AVAILABLE -> sc_test s = false -> sc_has s = false -> (sc_r1 s = true \/ sc_r2 s = true) ->
+  let fcode := if sc_r1 s then 10 else 11 in
+  let '(s', o) := sc_run v c now s in
+  o = [OTx (enc_fixed (alen c) fcode (sc_addr s) true false (sc_nfcb s) true)] /\ sc_ps s' = PLL_REQUEST_RESPOND /\
+  sc_nfcb s' = negb (sc_nfcb s) /\ sc_lastfc s' = fcode /\ sc_lastsend s' = now /\ sc_origsend s' = now /\ sc_addr s' = sc_addr s /\
+  sc_r1 s' = false.
+Proof.
+  intros v c now s Hs Ht Hh Hr. unfold sc_run. rewrite Hs, Ht, Hh. unfold PLL_AVAILABLE, PLL_IDLE, PLL_REQ_STATUS, PLL_RESET, PLL_SEND_CONFIRM, PLL_TIMEOUT, PLL_REQUEST_RESPOND.
+  cbn [Z.eqb Pos.eqb orb andb negb]. cbv beta iota.
+  destruct (sc_r1 s) eqn:R1; cbn [orb]; cbv beta iota.
+  - repeat split; reflexivity.
+  - destruct Hr as [Hr | Hr]; [discriminate|]. rewrite Hr. cbv beta iota. repeat split; reflexivity.
+Qed.
+
+Theorem sc_request_repeat_identical : forall v c t0 t1 s, fc_ v = true ->
+  sc_ps s = PLL_AVAILABLE -> sc_test s = false -> sc_has s = false -> (sc_r1 s = true \/ sc_r2 s = true) ->
+  0 <= t_ack c -> t0 + t_ack c < t1 -> t1 <= t0 + t_rep c ->
+  let '(s1, o1) := sc_run v c t0 s in let '(s2, o2) := sc_run v c t1 s1 in o2 = o1.
+Proof.
+  intros v c t0 t1 s Hv Hs Ht Hh Hr H0 H1 H2.
+  pose proof (sc_request_new v c t0 s Hs Ht Hh Hr) as A. cbv zeta in A. destruct (sc_run v c t0 s) as [s1 o1].
+  destruct A as (Ao & As & Af & Al & Als & Aos & Aa & _).
+  unfold sc_run. rewrite As, Hv, Als, Aos, (clamp_le t0 t1 ltac:(lia)). unfold PLL_AVAILABLE, PLL_IDLE, PLL_REQ_STATUS, PLL_RESET, PLL_SEND_CONFIRM, PLL_TIMEOUT, PLL_REQUEST_RESPOND.
+  settle. rewrite Ao, Al, Af, Aa, negb_involutive. reflexivity.
+Qed.
+
+(* the original code repeats a class 1 request as a class 2 request *)
+Theorem sc_request_repeat_refuted : exists v c t0 t1 s,
+  fc_ v = false /\ sc_ps s = PLL_AVAILABLE /\ sc_r1 s = true /\ t0 + t_ack c < t1 /\ t1 <= t0 + t_rep c /\
+  let '(s1, o1) := sc_run v c t0 s in let '(s2, o2) := sc_run v c t1 s1 in
+  o1 = [OTx (enc_fixed 1 10 1 true false true true)] /\ o2 = [OTx (enc_fixed 1 11 1 true false true true)].
+Proof.
+  exists {| fa := false; fb := false; fc_ := false; fd := false; fe := false; ff := false |},
+         {| alen := 1; single_ack := false; t_ack := 200; t_rep := 1000; t_ls := 5000 |}, 1000, 1250,
+         (sc_mk (sc_init 1) LS_AVAILABLE PLL_AVAILABLE false [] 0 0 true false false false true 11).
+  split; [reflexivity|]. split; [reflexivity|]. split; [reflexivity|]. split; [reflexivity|]. split; [discriminate|].
+  vm_compute. split; reflexivity.
+Qed.
+
+Theorem sc_reset_fcb : forall v c now s, fa v = true -> sc_ps s = PLL_REQ_STATUS ->
+  (forall acd address msg uds udl, sc_nfcb (fst (sc_handle v c now s 11 acd false address msg uds udl)) = true) /\
+  (sc_wait s = false -> sc_nfcb (fst (sc_run v c now s)) = true).
+Proof.
+  intros v c now s Hv Hs. split.
+  - intros acd address msg uds udl. unfold sc_handle. rewrite Hv.
+    replace (sc_ps (if acd then sc_with_r s true (sc_r2 s) else s)) with (sc_ps s) by (destruct acd; reflexivity).
+    rewrite Hs. unfold PLL_REQ_STATUS. cbn [Z.eqb Pos.eqb orb andb negb]. cbv beta iota.
+    unfold sc_set_state. destruct acd; cbn [sc_ls sc_mk sc_with_r];
+      match goal with |- context [if ?b then _ else _] => destruct b end; reflexivity.
+  - intros Hw. unfold sc_run. rewrite Hs, Hw. reflexivity.
+Qed.
+
+Theorem sc_reset_fcb_refuted : exists v c now s,
+  fa v = false /\ sc_ps s = PLL_REQ_STATUS /\ sc_nfcb (fst (sc_handle v c now s 11 false false 1 [] 0 0)) = false /\
+  In (OTx (reset_frame c 1 false)) (snd (sc_handle v c now s 11 false false 1 [] 0 0)).
+Proof.
+  exists {| fa := false; fb := false; fc_ := false; fd := false; fe := false; ff := false |},
+         {| alen := 1; single_ack := false; t_ack := 200; t_rep := 1000; t_ls := 5000 |}, 1000,
+         (sc_mk (sc_init 1) LS_ERROR PLL_REQ_STATUS false [] 1000 0 false false true false false 11).
+  vm_compute. repeat split; try reflexivity. left. reflexivity.
+Qed.
